@@ -57,9 +57,21 @@ theorem C13_reload_raw_eq_fresh (c₀ : RawCfg) (cs : List RawCfg) (p : Probe) :
   unfold lookup runRawReloads
   rw [getBackend_congr _ _ (h cs c₀ (fresh (normalise c₀)) (fun _ => rfl))]
 
-/-- On the pinned tree a file without backends was skipped: the old backends stayed accepted. -/
-example (t : Table) (c : RawCfg) (h : c.ids = "") : (if true && c.ids = "" then t else reload t (normalise c)) = t := by
-  simp [h]
+/-- non-vacuity, and the reading of a file: ids with blanks, a duplicate and an id without section;
+a backend without own secret takes the common one; a negative limit is no limit; then a file whose
+`backends` value is empty (on the pinned tree that file was skipped and `b1` stayed accepted). -/
+example :
+    let s1 : Sec := { id := "b1", url := "https://h1.invalid/a", parseOk := true, norm := "https://h1.invalid/a/",
+                      host := "h1.invalid", scheme := "https", secret := "", limit := some (-3), stream := some 1000, screen := none }
+    let s2 : Sec := { id := "b2", url := "http://h1.invalid/b", parseOk := true, norm := "http://h1.invalid/b/",
+                      host := "h1.invalid", scheme := "http", secret := "s2", limit := some 10, stream := none, screen := none }
+    let c₀ : RawCfg := { common := "common", ids := " b2 , b1,,b2, nosection", secs := [s1, s2] }
+    let c₁ : RawCfg := { common := "common", ids := "", secs := [s1, s2] }
+    (normalise c₀).map (fun b => (b.id, b.secret, b.limit, b.allowHttp)) = [("b2", "s2", 10, true), ("b1", "common", 0, false)] ∧
+    (lookup (runRawReloads c₀ []) { scheme := "https", host := "h1.invalid", url := "https://h1.invalid/a/x/" }).map (·.id) = some "b1" ∧
+    (lookup (runRawReloads c₀ []) { scheme := "http", host := "h1.invalid", url := "http://h1.invalid/a/x/" }) = none ∧
+    (lookup (runRawReloads c₀ [c₁]) { scheme := "https", host := "h1.invalid", url := "https://h1.invalid/a/x/" }) = none := by
+  refine ⟨by decide +kernel, by decide +kernel, by decide +kernel, by decide +kernel⟩
 
 /-- Reloading cannot fail: `reload?` models `Reload` with an `UpsertHost` that may panic (`none`);
 with the code's current `UpsertHost` it always returns, for every table and configuration. -/
